@@ -188,6 +188,23 @@ def worker(sh):
         add('c.g1affine_from_hash %s' % hb, 'h1', h)
         if rng.random() < 0.4 or directed:
             add('c.lq_id_from_hash %s' % hb, 'id', h)
+    # consecutive derivations from RELATED hashes (a derivation must not depend on the previous one): same hash twice, hashes sharing a
+    # 16/32/40-byte prefix with the rest zeroed or changed, hashes sharing a suffix, in both orders
+    if sh.index < 8:
+        for _ in range(sh.pick(3, 30)):
+            A = rng.getrandbits(384).to_bytes(48, 'big')
+            variants = [A]
+            for cut in (16, 32, 40, 47):
+                variants += [A[:cut] + bytes(48 - cut), A[:cut] + bytes(rng.getrandbits(8) for _ in range(48 - cut))]
+            variants += [bytes(16) + A[16:], bytes([A[0] ^ 1]) + A[1:], A[:47] + bytes([A[47] ^ 1])]
+            seq = [A]
+            for v in variants[1:]:
+                seq += [v, A] if rng.random() < 0.5 else [A, v]
+            for v in seq + seq[::-1]:
+                h = int.from_bytes(v, 'big')
+                add('c.lq_id_from_hash %s' % v.hex(), 'id', h)
+                if rng.random() < 0.3:
+                    add('c.g1affine_from_hash %s' % v.hex(), 'h1', h)
     h2 = [(rng.getrandbits(384), rng.getrandbits(384)) for _ in range(sh.pick(12, 700))]
     if directed:
         h2 += [(0, 0), (Q - 1, Q - 1), (Q, Q), (M381, M381), ((1 << 384) - 1, (1 << 384) - 1), (1, 0), (0, 1)]
